@@ -49,4 +49,19 @@ Section Spec.
     peval (piece s k) (x - mid (sgrid (ssup s)) k)%F.
 
   Definition sgridp (s : spline F) : list F := sgrid (ssup s).
+
+  (* the absolute indices of the intervals of a window, in increasing order *)
+  Definition interval_list (s : support F) : list N :=
+    map (fun i => sstart s + i) (nrange (nintervals s)).
+
+  (* left-to-right sum, as the accumulation loops of the library run *)
+  Definition fsum (f : N -> F) (l : list N) : F :=
+    fold_left (fun acc k => (acc + f k)%F) l f0.
+
+  (* sum_i c_i * f_i, right fold *)
+  Fixpoint lincomb_val (cs : list F) (fs : list F) : F :=
+    match cs, fs with
+    | c :: cs', v :: fs' => (c * v + lincomb_val cs' fs')%F
+    | _, _ => f0
+    end.
 End Spec.
